@@ -21,6 +21,11 @@ The same is done for the buffer registry of the primary instruments (`register_b
                                                              attribute agree, names are [spot, aux] in first-registration order, one buffer each
   resimulate   simulate(N), read spot, simulate(M)       -> the second spot is a function of M only, the first of N only, same buffer names
 
+and for what a derivative computes from the simulated paths, with a real BrownianStock as the underlier:
+
+  resim-payoff  d.simulate(N), payoff(), u.simulate(M), payoff(), d.simulate(P), payoff()   -> each payoff is a function of its own simulation only
+  resim-state   the same with moneyness / log_moneyness / max_moneyness / max_log_moneyness / time_to_maturity, single step and all steps
+
 A lazily filled cache that one of the writers forgets to invalidate, a reset that takes a registry with it, a reader that keeps the first
 answer: each shows up as a history whose last reads do not match.  Every non-raising path of a history is judged; a history without any
 non-raising path is an analysis error."""
@@ -332,4 +337,127 @@ def primary_histories_rule(ctx, run, rule, only=None):
                 run.fail(Finding(rule, where.qualname if where else q, f"{short}, history '{name}': " + "; ".join(bad)[:300],
                                  "what the instrument hands out after this call history is not what was registered last",
                                  file=str(prog.modules[(where or prog.classes[q]).module].path), line=(where.node if where else prog.classes[q].node).lineno, case=name))
+    run.functions |= {f for f in interp.visited if f in prog.functions}
+
+
+STATE_READS = "(d.moneyness(i), d.log_moneyness(i), d.max_moneyness(i), d.max_log_moneyness(i), d.time_to_maturity(i), d.moneyness(), d.log_moneyness(), d.max_moneyness(), d.max_log_moneyness(), d.time_to_maturity())"
+STATE_NAMES = ["moneyness(i)", "log_moneyness(i)", "max_moneyness(i)", "max_log_moneyness(i)", "time_to_maturity(i)", "moneyness()", "log_moneyness()", "max_moneyness()", "max_log_moneyness()", "time_to_maturity()"]
+RESIM = '''
+def history(cls, stock, N, M, P, i):
+    u = stock()
+    d = cls(u)
+    d.simulate(n_paths=N)
+    a = READS
+    u.simulate(n_paths=M)
+    b = READS
+    d.simulate(n_paths=P)
+    return a, b, READS
+'''
+
+
+def resimulation_rule(ctx, run, rule, only=None):
+    """what a derivative computes from the paths follows the paths: after the underlier is simulated again - directly or through the
+    derivative - every reader returns a function of the new simulation only"""
+    prog = ctx.prog
+    interp = Interp(prog, max_depth=20)
+    for k in list(interp.intrinsics):
+        if ".BaseDerivative." in k or ".BasePrimary." in k:
+            interp.intrinsics.pop(k)
+    interp.faithful_registry = True
+    stock = "pfhedge.instruments.primary.brownian.BrownianStock"
+    if stock not in prog.classes:
+        raise AnalysisError("anchor vanished: BrownianStock")
+    mix = D + "base.OptionMixin"
+    n_obl = 0
+    for c in CLASSES:
+        q = D + c
+        if q not in prog.classes:
+            raise AnalysisError(f"anchor vanished: {q}")
+        short = c.rsplit(".", 1)[-1]
+        kinds = [("resim-payoff", "(d.payoff(),)", ["payoff()"])]
+        if mix in prog.mro(q):
+            kinds.append(("resim-state", STATE_READS, STATE_NAMES))
+        for name, reads, labels in kinds:
+            if only is not None and name not in only:
+                continue
+            fi = FuncInfo("synthetic." + name.replace("-", "_"), D + "base", ast.parse(RESIM.replace("READS", reads)).body[0])
+            args = dict(N=Sym("N", ("int",)), M=Sym("M", ("int",)), P=Sym("P", ("int",)), i=Sym("i", ("int",)))
+            try:
+                allres = interp.explore(fi, [ClassRef(q), ClassRef(stock)], args, max_paths=100)
+            except Unsupported as ex:
+                raise AnalysisError(f"history '{name}' on {short}: {ex}")
+            res = [r for r in allres if not r["raises"]]
+            bad = []
+            if not res:
+                bad.append("the history ends in an exception on every path: " + "; ".join(sorted({str(getattr(r["raises"], "exc", r["raises"]))[:80] for r in allres}))[:200])
+            for r in res:
+                for stage, own, vals in zip(("d.simulate(N)", "u.simulate(M)", "d.simulate(P)"), "NMP", r["value"]):
+                    for lab, v in zip(labels, vals):
+                        names = {s_.name for s_ in walk(v) if isinstance(s_, Sym)} if not isinstance(v, (int, float)) else set()
+                        stale = sorted(n_ for n_ in "NMP" if n_ != own and n_ in names)
+                        if stale:
+                            bad.append(f"{lab} after {stage} still depends on the simulation with n_paths={stale[0]}")
+                        elif own not in names:
+                            bad.append(f"{lab} after {stage} does not depend on that simulation")
+            bad = sorted(set(bad))
+            n_obl += 1
+            run.oblige(rule, f"{short}: history '{name}'", not bad, "; ".join(bad) or "every read follows the latest simulation")
+            if bad:
+                where = prog.lookup_method(q, "payoff" if name == "resim-payoff" else "max_moneyness")
+                run.fail(Finding(rule, where.qualname if where else q, f"{short}, history '{name}': " + "; ".join(bad)[:300],
+                                 "a value computed from the simulated paths survives a new simulation: payoff, features and hedge are evaluated on paths that no longer exist",
+                                 file=str(prog.modules[(where or prog.classes[q]).module].path), line=(where.node if where else prog.classes[q].node).lineno, case=name))
+    run.require(rule, n_obl)
+    run.functions |= {f for f in interp.visited if f in prog.functions}
+
+
+def reconfigure_rule(ctx, run, rule):
+    """history 'reconfigure': create the instrument with parameters old_*, simulate(N), read the series, assign new_* to every parameter,
+    simulate(M), read again - the second reads are the first ones with old -> new and N -> M: nothing derived from the old configuration
+    (a memoised volatility, a grid, a constant tensor) is left"""
+    from .primaries import primary_classes
+    prog = ctx.prog
+    interp = Interp(prog, max_depth=20)
+    for k in list(interp.intrinsics):
+        if ".BaseDerivative." in k or ".BasePrimary." in k:
+            interp.intrinsics.pop(k)
+    interp.faithful_registry = True
+    classes = primary_classes(prog)
+    run.require(rule, len(classes))
+    for q in classes:
+        short = q.rsplit(".", 1)[-1]
+        init = prog.lookup_method(q, "__init__")
+        params = [a.arg for a in init.node.args.args[1:] + init.node.args.kwonlyargs if a.arg not in ("dtype", "device", "engine", "cost")]
+        series = [n for n in ("spot", "volatility", "variance") if prog.lookup_method(q, n) is not None or n in ("spot",)]
+        fn_params = [p_ for p_ in params if p_.endswith("_fn")]
+        reads = "(" + ", ".join(f"s.{n}" for n in series) + ",)"
+        src = "def history(cls, old, new, N, M):\n    s = cls(**old)\n    s.simulate(n_paths=N)\n    a = " + reads + "\n"
+        for p_ in params:
+            src += f"    s.{p_} = new['{p_}']\n"
+        src += "    s.simulate(n_paths=M)\n    return a, " + reads + "\n"
+        fi = FuncInfo("synthetic.primary_history_reconfigure", "pfhedge.instruments.primary.base", ast.parse(src).body[0])
+        mk = lambda pre: {p_: Sym(f"{pre}_{p_}", ("callable",) if p_ in fn_params else ("float",)) for p_ in params}  # noqa: E731
+        old, new = mk("old"), mk("new")
+        try:
+            allres = interp.explore(fi, [ClassRef(q), old, new, Sym("N", ("int",)), Sym("M", ("int",))], {}, max_paths=200)
+        except Unsupported as ex:
+            raise AnalysisError(f"history 'reconfigure' on {short}: {ex}")
+        res = [r for r in allres if not r["raises"]]
+        bad = []
+        if not res:
+            bad.append("the history ends in an exception on every path: " + "; ".join(sorted({str(getattr(r["raises"], "exc", r["raises"]))[:80] for r in allres}))[:200])
+        for r in res:
+            a, b = r["value"]
+            for n, x, y in zip(series, a, b):
+                nb = {s_.name for s_ in walk(y) if isinstance(s_, Sym)}
+                stale = sorted(n_ for n_ in nb if n_.startswith("old_") or n_ == "N")
+                if stale:
+                    bad.append(f"{n} after reconfiguring and simulating again still depends on {', '.join(stale)}")
+        bad = sorted(set(bad))
+        run.oblige(rule, f"{short}: history 'reconfigure'", not bad, "; ".join(bad) or f"{', '.join(series)} follow the current parameters and the latest simulation")
+        if bad:
+            where = prog.lookup_method(q, "simulate")
+            run.fail(Finding(rule, where.qualname if where else q, f"{short}, history 'reconfigure': " + "; ".join(bad)[:300],
+                             "a series of the instrument is computed from a configuration or a simulation that has been replaced",
+                             file=str(prog.modules[(where or prog.classes[q]).module].path), line=(where.node if where else prog.classes[q].node).lineno, case="reconfigure"))
     run.functions |= {f for f in interp.visited if f in prog.functions}
